@@ -21,8 +21,8 @@ STEPS = 14
 
 
 @st.composite
-def init_cases(draw):
-    dom = draw(gen.domains(2, 5, 1, 3, cap=300))
+def init_cases(draw, tier='quick'):
+    dom = draw(gen.domains(2, 5 if tier == 'quick' else 6, 1, 3 if tier == 'quick' else 4, cap=300 if tier == 'quick' else 2000))
     attrs = dom['attrs']
     cliques = draw(gen.clique_sets(attrs, max_cliques=5, max_clique_size=3, min_cliques=1))
     witness = [draw(st.integers(0, s - 1)) for s in dom['shape']]
@@ -183,14 +183,14 @@ def run_case(case):
 
 
 def machine(tier, record, timeup):
-    idx = st.lists(st.integers(0, 4), min_size=0, max_size=5, unique=True)
+    idx = st.lists(st.integers(0, 5), min_size=0, max_size=6, unique=True)
 
     class M(RuleBasedStateMachine):
         def __init__(self):
             super().__init__()
             self.state = None; self.history = []; self.out = Out(); self.init = None; self.skip = False
 
-        @initialize(init=init_cases())
+        @initialize(init=init_cases(tier))
         def start(self, init):
             if timeup():
                 self.skip = True; return
@@ -224,7 +224,7 @@ def machine(tier, record, timeup):
         def many(self, ixs):
             if self.state: self._do({'op': 'many', 'projs': [self._attrs(ix) for ix in ixs]})
 
-        @rule(seed=st.integers(0, 2**31 - 1), rows=st.lists(st.integers(1, 3), min_size=5, max_size=5))
+        @rule(seed=st.integers(0, 2**31 - 1), rows=st.lists(st.integers(1, 3), min_size=6, max_size=6))
         def krondot(self, seed, rows):
             if self.state: self._do({'op': 'krondot', 'seed': seed, 'rows': rows[:len(self.state.attrs)]})
 
